@@ -1,6 +1,9 @@
 package mocker
 
-import "unsafe"
+import (
+	"errors"
+	"unsafe"
+)
 
 // C01 (mocker layer): the replacement installed by Apply/Return is what a call reaches, it
 // sees the caller's arguments and the caller receives its results, for several
@@ -153,4 +156,75 @@ func VC_C01_stub_standin_results() {
 	b.Reset()
 	verifAssert(!vDiverted(vC01Open), "C01.standin.reset-restores")
 	verifReached("C01.standin")
+}
+
+// method values: mock.Func(obj.Method) goes by the method's symbol name ("...-fm" is the
+// compiler's wrapper of the method value)
+type vL01 struct{ n int }
+
+func (l *vL01) Log(i int) int  { return i + 1 }
+func (l *vL01) Logf(i int) int { return i + 2 }
+func (l *vL01) Su(i int) int   { return i + 3 }
+func (l *vL01) Sum(i int) int  { return i + 4 }
+
+var vL01Names = [4]string{"Log", "Logf", "Su", "Sum"}
+
+func vL01Method(k int) interface{} {
+	switch k {
+	case 0:
+		return (*vL01).Log
+	case 1:
+		return (*vL01).Logf
+	case 2:
+		return (*vL01).Su
+	}
+	return (*vL01).Sum
+}
+
+// the symbol lookup itself is the subject of C10
+//
+//verif:stub github.com/tencent/goom/internal/unexports2.FindFuncByName
+func vC01FindFuncByName(name string) (uintptr, error) {
+	for k := 0; k < 4; k++ {
+		if name == "github.com/tencent/goom.(*vL01)."+vL01Names[k] {
+			return verifFuncCode(vL01Method(k)), nil
+		}
+	}
+	return 0, errors.New("function symbol not found: " + name)
+}
+
+// VC_C01_method_value: a method mocked through its method value (obj.Method), for method
+// names that end in letters of the "-fm" suffix: calls of that method reach the stubbed
+// result, its shorter-named sibling is untouched.
+func VC_C01_method_value() {
+	vEnv()
+	for k := 0; k < 4; k++ {
+		vPristine(vL01Method(k))
+		for j := 0; j < k; j++ {
+			verifApart(verifFuncCode(vL01Method(k)), verifFuncCode(vL01Method(j)), 32)
+		}
+	}
+	obj := &vL01{n: 1}
+	mvs := [4]interface{}{obj.Log, obj.Logf, obj.Su, obj.Sum}
+	k := verifChoice("method", 4)
+	r := verifInt("r")
+	b := Create()
+	panicked := false
+	func() {
+		defer func() {
+			if e := recover(); e != nil {
+				panicked = true
+			}
+		}()
+		b.Func(mvs[k]).Return(r)
+	}()
+	verifAssert(!panicked, "C01.method-value.accepted")
+	for j := 0; j < 4; j++ {
+		verifAssert(vDiverted(vL01Method(j)) == (j == k && !panicked), "C01.method-value.exactly-the-named-method-mocked")
+	}
+	b.Reset()
+	for j := 0; j < 4; j++ {
+		verifAssert(!vDiverted(vL01Method(j)), "C01.method-value.reset-restores")
+	}
+	verifReached("C01.method-value")
 }
